@@ -2,13 +2,78 @@
 \* Model-checking wrapper of Observer.tla: a step counter makes "all histories
 \* of at most MaxDepth calls" an exact bound that does not depend on the order
 \* in which parallel TLC workers discover states (TLCGet("level") does).
+\* One named action per call so that -coverage reports each of them.
 EXTENDS Observer
 
 VARIABLE depth
 mcvars == <<vars, depth>>
+Step == depth' = depth + 1
+
+S_GCreateNode == GCreateNode /\ Step
+S_GCreateNodeFromNode == GCreateNodeFromNode /\ Step
+S_GCreateNodeOnEdge == GCreateNodeOnEdge /\ Step
+S_GCreateNodeFromEdge == GCreateNodeFromEdge /\ Step
+S_GLink == GLink /\ Step
+S_GUnlink == GUnlink /\ Step
+S_GDeleteNode == GDeleteNode /\ Step
+S_GMakeDirected == GMakeDirected /\ Step
+S_GMakeUndirected == GMakeUndirected /\ Step
+S_DCreateNode == DCreateNode /\ Step
+S_DCreateNodeFrom == DCreateNodeFrom /\ Step
+S_DLink == DLink /\ Step
+S_DUnlink == DUnlink /\ Step
+S_DDeleteNode == DDeleteNode /\ Step
+S_DAssocNode == DAssocNode /\ Step
+S_DAssocEdge == DAssocEdge /\ Step
+S_DDissocNode == DDissocNode /\ Step
+S_DDissocEdge == DDissocEdge /\ Step
+S_DSetNodeIndex == DSetNodeIndex /\ Step
+S_DSetEdgeIndex == DSetEdgeIndex /\ Step
+S_DAddNodeIndex == DAddNodeIndex /\ Step
+S_DAddEdgeIndex == DAddEdgeIndex /\ Step
+S_DSetEdgeLinking == DSetEdgeLinking /\ Step
+S_Copy == Copy /\ Step
+S_Drop == Drop /\ Step
+S_DAssign == DAssign /\ Step
+S_Attach == Attach /\ Step
+S_Clone == Clone /\ Step
+S_Swap == Swap /\ Step
+S_DropClone == DropClone /\ Step
+S_DAssignAcross == DAssignAcross /\ Step
 
 MCInit == OInit /\ depth = 0
-MCNext == ObsNext /\ depth' = depth + 1
+MCNext ==
+  \/ S_GCreateNode
+  \/ S_GCreateNodeFromNode
+  \/ S_GCreateNodeOnEdge
+  \/ S_GCreateNodeFromEdge
+  \/ S_GLink
+  \/ S_GUnlink
+  \/ S_GDeleteNode
+  \/ S_GMakeDirected
+  \/ S_GMakeUndirected
+  \/ S_DCreateNode
+  \/ S_DCreateNodeFrom
+  \/ S_DLink
+  \/ S_DUnlink
+  \/ S_DDeleteNode
+  \/ S_DAssocNode
+  \/ S_DAssocEdge
+  \/ S_DDissocNode
+  \/ S_DDissocEdge
+  \/ S_DSetNodeIndex
+  \/ S_DSetEdgeIndex
+  \/ S_DAddNodeIndex
+  \/ S_DAddEdgeIndex
+  \/ S_DSetEdgeLinking
+  \/ S_Copy
+  \/ S_Drop
+  \/ S_DAssign
+  \/ S_Attach
+  \/ S_Clone
+  \/ S_Swap
+  \/ S_DropClone
+  \/ S_DAssignAcross
 MCSpec == MCInit /\ [][MCNext]_mcvars
 DepthBound == depth <= MaxDepth         \* every history of at most MaxDepth calls is expanded and checked
 =============================================================================
